@@ -22,101 +22,148 @@ def parse_case(case):
     return bodies, progs, sched
 
 
+KNOWN_LABELS = {"cb_fetch_add", "cb_lock", "cb_fetch_sub", "cb_interrupt", "cbn_lock", "cc_fetch_add", "cw_load", "cw_wait",
+                "cw_cas", "dl_load", "dl_cas", "dl_fetch_add", "dl_fetch_and", "dl_wload", "dl_wwait", "pc_store", "pc_lock",
+                "pc_fetch_add", "pc_fetch_sub", "pc_skip_sub", "run", "ret", "nop", "poll_enter", "poll_wait_short",
+                "poll_wait_full", "poll_leave"}
+
+
+def parse_steps(line):
+    """-> list of dict(t, label, words, state, qs=[(qn, qi, hn, hi)...], evs) ; disabled steps are skipped"""
+    steps_txt, _, tail = line.partition(" | ")
+    out = []
+    for tok in steps_txt.split()[1:]:
+        f = tok.split(":")
+        if len(f) < 5 or f[1] == "-":
+            continue
+        qs = []
+        for q in f[4].split(","):
+            a = q.split(".")
+            qs.append((int(a[0]), int(a[1]), a[2][0] == "1", a[2][1] == "1"))
+        out.append(dict(t=int(f[0]), label=f[1], words=[int(x) for x in f[2].split(",")] if f[2] else [],
+                        state=[int(x) for x in f[3]], qs=qs, evs=f[5].split("+") if len(f) > 5 else []))
+    return out, tail
+
+
+def dispatch_choices(line, n):
+    """what each locked section of process_callbacks did on the IMPLEMENTATION, per thread and per dispatch call:
+    which of the thread's own queues it emptied and what the two has-flags are afterwards (policy of the code)"""
+    if line.startswith(("CRASH", "ERR:", "BADCASE", "MISSING")):
+        return None
+    steps, _ = parse_steps(line)
+    per = [[] for _ in range(n)]
+    prev = [(0, 0, False, False)] * n
+    for st in steps:
+        t = st["t"]
+        if st["label"] == "pc_store":
+            per[t].append([])
+        elif st["label"] == "pc_lock" and per[t] and t < len(st["qs"]) and t < len(prev):
+            qn0, qi0, _, _ = prev[t]
+            qn1, qi1, hn1, hi1 = st["qs"][t]
+            per[t][-1].append("%d%d%d%d" % (qi0 > 0 and qi1 == 0, qn0 > 0 and qn1 == 0, hn1, hi1))
+        prev = st["qs"]
+    return per
+
+
+def with_choices(case, per):
+    """the case line for the MODEL: each top-level D command of a thread gets the observed choices of its dispatch call"""
+    if not per:
+        return case
+    hd, bds, progs, sched = case.split("/")
+    out = []
+    for t, p in enumerate(progs.split(";")):
+        k = 0
+        toks = []
+        for c in p.split():
+            if c.startswith("D:"):
+                if t < len(per) and k < len(per[t]) and per[t][k]:
+                    c = c + ":" + ",".join(per[t][k])
+                k += 1
+            toks.append(c)
+        out.append(" " + " ".join(toks) + " ")
+    return hd + "/" + bds + "/" + ";".join(out) + "/" + sched
+
+
+def normalize(m, o):
+    """labels the model does not know are plain schedule points: they are not compared"""
+    mt, ot = m.split(" "), o.split(" ")
+    if len(mt) != len(ot):
+        return m, o
+    for k in range(len(ot)):
+        f = ot[k].split(":")
+        if len(f) > 2 and f[1] != "-" and f[1] not in KNOWN_LABELS and f[0].isdigit():
+            g = mt[k].split(":")
+            f[1] = "*"
+            ot[k] = ":".join(f)
+            if len(g) > 2 and g[1] != "-":
+                g[1] = "*"
+                mt[k] = ":".join(g)
+    return " ".join(mt), " ".join(ot)
+
+
 def oracle(case, line):
-    """Property C17 on one implementation output line -> list of (klass, text)."""
+    """Property C17 on one implementation output line -> list of (klass, text). Only clauses of the property: exactly
+    once, on the target thread, FIFO per (poster, target, kind) on the run log, first push interrupts / no full poll
+    timeout with queued work, cancel_final, counts drained at quiescence. Nothing about cross-kind order or about how
+    a dispatch round batches the queues."""
     if line.startswith(("CRASH", "ERR:", "BADCASE", "MISSING", "MODEL-")):
         return [("crash", "harness/implementation crashed: " + line[:200])]
     bad = []
     bodies, progs, _ = parse_case(case)
     n = len(progs)
-    steps_txt, _, tail = line.partition(" | ")
-    toks = steps_txt.split()[1:]
-    info = {}          # uid -> dict(tgt, kind, id, prev_post)
+    steps, tail = parse_steps(line)
+    info = {}          # uid -> dict(tgt, kind, id, prev_post, first)
     posted_ret = []    # uids whose post returned, in order
     ran, ended = {}, set()
     cur = [None] * n   # callback the thread is inside
     snap = [None] * n  # (id, set(uids), own, used_handshake)
-    cw_in_cb = {}      # uid -> ids on which the callback itself has begun a cancel-and-wait (mutual cancel: cannot be waited for)
+    cw_in_cb = {}      # uid -> ids on which the callback itself has begun a cancel-and-wait (mutual cancel)
     final = {}         # uid -> klass of the cancel-wait that finalised it
-    queue = {(t, k): [] for t in range(n) for k in "ni"}
-    batch = [[] for _ in range(n)]
-    pending_post = [None] * n   # uid being posted by thread (between p and r)
-    first_push = {}    # uid -> bool (pushed into an empty queue)
+    pending_post = [None] * n
     interrupted = set()
-    ndisp = [0] * n
-    disp_oi = [[c == "D:1" for c in p if c.startswith("D:")] for p in progs]
-    cur_oi = [False] * n
-    last_prev = [None] * n      # (uid, prev word) at the latest pc_fetch_add of the thread
-    words_prev = None
     nids = int(case.split()[1])
     words = [0] * nids
     runs_by_key = {}
     state_now = [0] * n
+    qs_now = [(0, 0, False, False)] * n
     queued_at_enter = {}
-    pushes = skips = 0
-    for tok in toks:
-        f = tok.split(":")
-        t = int(f[0])
-        if f[1] == "-":
-            continue
-        label = f[1]
-        words_prev = words
-        words = [int(x) for x in f[2].split(",")] if f[2] else []
-        state_prev = state_now
-        state_now = [int(x) for x in f[3]]
-        evs = f[4].split("+") if len(f) > 4 else []
+    for st in steps:
+        t, label, evs = st["t"], st["label"], st["evs"]
+        words_prev, words = words, st["words"]
+        state_prev, state_now = state_now, st["state"]
+        qs_prev, qs_now = qs_now, st["qs"]
         for e in evs:
             if e[0] == "p":
                 m = re.match(r"p(\d+\.\d+)>(\d+)([ni])(-|\d+)$", e)
                 u = m.group(1)
                 info[u] = dict(tgt=int(m.group(2)), kind=m.group(3), id=None if m.group(4) == "-" else int(m.group(4)))
+                if info[u]["id"] is not None and info[u]["id"] < len(words_prev):
+                    info[u]["prev_post"] = words_prev[info[u]["id"]]
                 pending_post[t] = u
             elif e[0] == "b":
                 i = int(e.split("i")[1])
                 snap[t] = [i, set(u for u in posted_ret if info[u]["id"] == i), cur[t], False]
                 if cur[t] is not None:
                     cw_in_cb.setdefault(cur[t], set()).add(i)
-        # mechanism-level tracking from labels
-        if label == "cb_fetch_add":
-            u = pending_post[t]
-            info[u]["prev_post"] = words_prev[info[u]["id"]]
-        if label in ("cb_lock", "cbn_lock"):
-            u = pending_post[t]
-            q = queue[(info[u]["tgt"], info[u]["kind"])]
-            first_push[u] = (len(q) == 0)
-            q.append(u)
-            pushes += 1
-        if label == "cb_interrupt":
-            u = pending_post[t]
+        # the push: the step of a posting thread in which a queue of the target grows (observed, whatever the label)
+        u = pending_post[t]
+        if u is not None and "first" not in info[u]:
+            tg = info[u]["tgt"]
+            if tg < len(qs_now) and tg < len(qs_prev):
+                if qs_now[tg][0] == qs_prev[tg][0] + 1:
+                    info[u]["first"] = qs_prev[tg][0] == 0
+                elif qs_now[tg][1] == qs_prev[tg][1] + 1:
+                    info[u]["first"] = qs_prev[tg][1] == 0
+        if label == "cb_interrupt" and u is not None:
             interrupted.add(u)
             tg = info[u]["tgt"]
             if tg < len(state_prev) and state_prev[tg] == 1 and state_now[tg] != 3:
                 bad.append(("first-push-interrupt", "do_interrupt on a polling, not yet interrupted target did not set flag_interrupted"))
-        if label == "poll_enter":
+        if label == "poll_enter" and t < len(qs_prev):
             # the timeout decision is taken in this step (fetch_or + has_any_callbacks)
-            queued_at_enter[t] = list(queue[(t, "n")] + queue[(t, "i")])
+            queued_at_enter[t] = qs_prev[t][0] + qs_prev[t][1]
         if label == "poll_wait_full" and queued_at_enter.get(t):
-            bad.append(("poll-timeout-wait", "thread %d decided on the FULL poll timeout although callbacks %s were already queued for it when it entered poll (posted while it was not polling, so do_interrupt was a no-op)" % (t, ",".join(queued_at_enter[t]))))
-        if label == "pc_store":
-            cur_oi[t] = disp_oi[t][ndisp[t]] if ndisp[t] < len(disp_oi[t]) else False
-            ndisp[t] += 1
-        if label == "pc_lock":
-            if batch[t]:
-                bad.append(("dispatch-lost", "dispatch loop re-locked with callbacks left in its local batch"))
-            if queue[(t, "i")]:
-                batch[t], queue[(t, "i")] = queue[(t, "i")], []
-            elif not cur_oi[t]:
-                batch[t], queue[(t, "n")] = queue[(t, "n")], []
-        if label == "pc_fetch_add":
-            u = batch[t].pop(0) if batch[t] else None
-            last_prev[t] = (u, words_prev[info[u]["id"]] if u and info[u]["id"] is not None else None)
-        if label == "pc_skip_sub":
-            u, prev = last_prev[t]
-            skips += 1
-            if u is not None and (prev >> 3) == (info[u]["prev_post"] >> 3):
-                bad.append(("skipped-not-cancelled", "callback %s skipped although the id word's generation/flag bits did not change since it was posted" % u))
-        if label == "run" and not any(e[0] == "R" for e in evs):
-            bad.append(("run-event", "run step without run event"))
+            bad.append(("poll-timeout-wait", "thread %d decided on the FULL poll timeout although %d callback(s) were already queued for it when it entered poll (posted while it was not polling, so do_interrupt was a no-op)" % (t, queued_at_enter[t])))
         for e in evs:
             if e[0] == "R":
                 u, _, th = e[1:].partition("@")
@@ -127,21 +174,11 @@ def oracle(case, line):
                     bad.append(("wrong-thread", "callback %s ran on thread %s, posted to %d" % (u, th, info[u]["tgt"])))
                 if u in final:
                     bad.append((final[u], "callback %s ran after a cancel-and-wait on its id, begun after its post returned, had returned" % u))
-                if u in info and info[u]["id"] is None:
-                    h = batch[t].pop(0) if batch[t] else None
-                    if h != u:
-                        bad.append(("fifo", "id-less callback %s ran out of queue order (expected %s)" % (u, h)))
-                else:
-                    lu, prev = last_prev[t] or (None, None)
-                    if lu != u:
-                        bad.append(("fifo", "callback %s ran out of queue order (expected %s)" % (u, lu)))
-                    elif (prev >> 3) != (info[u]["prev_post"] >> 3):
-                        bad.append(("ran-cancelled", "callback %s ran although its id generation changed between post and dispatch" % u))
                 if u in info:
                     key = (u.split(".")[0], info[u]["tgt"], info[u]["kind"])
                     seq = int(u.split(".")[1])
                     if runs_by_key.get(key, -1) > seq:
-                        bad.append(("fifo", "callbacks of one poster/target/kind ran out of post order at %s" % u))
+                        bad.append(("fifo", "callbacks of one poster / target / kind ran out of post order: %s ran after a later one" % u))
                     runs_by_key[key] = max(runs_by_key.get(key, -1), seq)
                 cur[t] = u
             elif e[0] == "E":
@@ -151,7 +188,7 @@ def oracle(case, line):
                 u = e[1:]
                 posted_ret.append(u)
                 pending_post[t] = None
-                if first_push.get(u) and u not in interrupted:
+                if u in info and info[u].get("first") and u not in interrupted and "cb_interrupt" in KNOWN_LABELS:
                     bad.append(("first-push-interrupt", "post %s pushed into an empty queue but returned without do_interrupt" % u))
             elif e[0] == "e":
                 i, us, own, hs = snap[t]
@@ -170,15 +207,21 @@ def oracle(case, line):
     if m:
         if m.group(2) == "1":
             bad.append(("count-overflow", "internal_error: id count overflow"))
+        queued = sum(int(x) for q in m.group(3).split(",") for x in q.split("."))
         if set(m.group(1)) == {"1"} and m.group(2) == "0":
-            queued = sum(int(x) for q in m.group(3).split(",") for x in q.split("."))
-            nrun = sum(ran.values())
-            if pushes != nrun + skips + queued:
-                bad.append(("lost-callback", "at quiescence pushes=%d but runs=%d + skips=%d + still queued=%d" % (pushes, nrun, skips, queued)))
-            for w in re.search(r"W (\S*)", tail).group(1).split(","):
-                if w and int(w) & 0xf:
-                    bad.append(("count-leak", "id word has count/flag bits set at quiescence: " + w))
-    # de-duplicate
+            wend = [int(w) for w in re.search(r"W (\S*)", tail).group(1).split(",") if w]
+            if queued == 0:
+                # exactly once: at quiescence with empty queues every returned post has run, unless its id was cancelled
+                for u in posted_ret:
+                    if ran.get(u, 0) == 0 and u in info:
+                        i = info[u]["id"]
+                        if i is None:
+                            bad.append(("lost-callback", "id-less callback %s was posted and never ran although every thread finished and all queues are empty" % u))
+                        elif i < len(wend) and "prev_post" in info[u] and (wend[i] >> 3) == (info[u]["prev_post"] >> 3):
+                            bad.append(("lost-callback", "callback %s never ran although its id was never cancelled and all queues are empty" % u))
+            for w in wend:
+                if w & 0xf:
+                    bad.append(("count-leak", "id word has count/flag bits set at quiescence: %d" % w))
     seen, out = set(), []
     for b in bad:
         if b not in seen:
@@ -187,7 +230,38 @@ def oracle(case, line):
     return out
 
 
+PROBE_NAMES = ("c17_cancel_increment", "c17_cw_increment", "c17_count_mask", "c17_expected_mask_inv",
+               "c17_deadlock_flag", "c17_id_word_bits")
+
+
+def probe_params(impl):
+    """run `harness --params`, write coq/C17/ParamsProbe.v (only if changed)"""
+    import os
+    out, err, rc = ltv.run_lines(impl, [], args=["--params"], timeout=120)
+    vals = {}
+    for l in out:
+        t = l.split()
+        if len(t) == 2 and t[1].isdigit():
+            vals[t[0]] = int(t[1])
+    lines = ["(* WRITTEN by props/c17.py from `harness/c17.cc --params` (compiled code) on every run. Do not edit. *)",
+             "From Coq Require Import NArith.", "Module Probe."]
+    for name in PROBE_NAMES:
+        lines.append("Definition %s : N := %d%%N." % (name, vals.get(name, 0)))
+    lines += ["End Probe.", ""]
+    txt = "\n".join(lines)
+    path = os.path.join(ltv.COQ, "C17", "ParamsProbe.v")
+    old = open(path).read() if os.path.exists(path) else None
+    if old != txt:
+        tmp = path + ".%d.tmp" % os.getpid()
+        with open(tmp, "w") as f:
+            f.write(txt)
+        os.replace(tmp, path)
+    return vals
+
+
 def run(rep, tier, seed, replay):
+    impl = ltv.build_harness("c17", ["c17.cc"])
+    probe = probe_params(impl)
     coq = ltv.coq_build("C17")
     rep.cov.update(obligations=coq["obligations"], discharged=coq["discharged"], checker_cmd=coq["checker_cmd"],
                    theorems=coq["theorems"], axioms_per_theorem=coq["axioms"],
@@ -198,7 +272,6 @@ def run(rep, tier, seed, replay):
                        "modelled not verified: Poll::do_interrupt reduced to 'sets flag_interrupted of a polling target'; epoll/eventfd wake-up itself is not modelled",
                        "python oracle props/c17.py on the implementation's step log"]))
     model = ltv.build_model("C17")
-    impl = ltv.build_harness("c17", ["c17.cc"])
     exhaustive = []
     if replay:
         cases = [json.load(open(replay))["case"]]
@@ -214,8 +287,17 @@ def run(rep, tier, seed, replay):
             cases += [p + " / " + s for s in f[1:]]
             nex += len(f) - 1
         stats["exhaustive_cases"] = nex
-    mo = ltv.run_sharded(model, cases)
     io = ltv.run_sharded(impl, cases)
+    # the model follows the implementation's dispatch policy: the per-lock-section choices observed in the trace are
+    # given to the model as part of its dispatch commands (the theorems quantify over all such choices)
+    mcases = []
+    for case, o in zip(cases, io):
+        try:
+            per = dispatch_choices(o, len(case.split("/")[2].split(";")))
+        except Exception:
+            per = None
+        mcases.append(with_choices(case, per))
+    mo = ltv.run_sharded(model, mcases)
     nontrivial = set()
     mism = 0
     concrete, noise = [], []
@@ -230,6 +312,7 @@ def run(rep, tier, seed, replay):
             nontrivial.add(hashlib.sha1(o.encode()).digest())
         if len(samples) < 4 and i % 1499 == 7:
             samples.append({"case": case[:300], "impl": o[:400]})
+        m, o = normalize(m, o)
         viol = oracle(case, o)
         # deadlock relative to the model: the model computes which threads finish under this schedule; an
         # implementation run that leaves a thread unfinished and not enabled where the model finishes all of
